@@ -340,6 +340,7 @@ def run(ctx):
     _large_collections(ctx, out, rng)
     _sql_statement_faults(ctx, out, rng)
     _uid_reused(ctx, out, rng)
+    _listing_extremes(ctx, out, rng)
     out.rule = ('for each of %d backends/wrappers: histories of 3-%d mutations over uids %r and generated policies (string-'
                 'based, rule-based with context, empty, and ones SQL/Mongo cannot convert because a later field is '
                 'malformed), plus limit/offset/batch edge reads; after EVERY mutation the whole store is read back by get '
@@ -347,7 +348,7 @@ def run(ctx):
                 'the abstract map; evaluations = individual operations; every history is non-trivial (>=3 mutations)'
                 % (len(KINDS), nmut, UIDS))
     out.rule += "; a fifth of the adds offer the very object handed to the previous add / update of that uid; for the serializing backends a reader changes the object a get handed out; SQL statement faults: the k-th statement of add / update / delete fails for every k (directly, behind the observable wrapper and the enfolding cache) and the storage's own later reads must show the stored set as it was"
-    out.rule += '; 40% of the SQLite storages on plain connections (PRAGMA foreign_keys not set); a stream that re-uses one uid after delete / update on every backend and reads it back element for element'
+    out.rule += '; 40% of the SQLite storages on plain connections (PRAGMA foreign_keys not set); a stream that re-uses one uid after delete / update on every backend and reads it back element for element; listings of uids of different types side by side (type-keeping backends) and of 1100 policies with pages / batches above a thousand'
     return out
 
 
@@ -395,6 +396,62 @@ def _concrete_model(out, line, bl, m, outs, desc):
 
 def _split_ops(ops):
     return list(ops)
+
+
+def _listing_extremes(ctx, out, rng):
+    """listings at the edges: (a) uids of different types side by side (a string and an integer - no order between them) on the
+    backends that keep the type; (b) a collection of more than a thousand policies listed with pages / batches larger than that:
+    every policy exactly once, pages tile"""
+    def fail(desc, got, why, sig):
+        f = Failure('oracle', desc, got, None, why, 'Vakt.C08.pages_tile / retrieve_all_exactly_once')
+        f.signature = sig
+        out.failures.append(f)
+
+    for kind in ('memory', 'redis-json', 'redis-pickle', 'mongo', 'observable:redis-pickle', 'enfold:mongo'):
+        st = stores.make(kind)
+        mixed = [Policy('1', actions=['a'], subjects=['s'], resources=['r']), Policy(2, actions=['a'], subjects=['s'], resources=['r']),
+                 Policy('b', description='x'), Policy(10, description='y')]
+        rng.shuffle(mixed)
+        desc = {'backend': kind, 'history': ['add uid %r' % (p.uid,) for p in mixed] + ['get_all(10, 0)', 'retrieve_all(2)']}
+        try:
+            for p in mixed:
+                st.add(p)
+            page = [p.uid for p in st.get_all(10, 0)]
+            every = [p.uid for p in st.retrieve_all(2)]
+        except Exception as e:
+            fail(desc, '%s: %s' % (type(e).__name__, str(e)[:160]), 'listing a collection whose uids are of different types raised',
+                 'mixed-uid-types')
+            return
+        out.evaluations += 1
+        out.count('mixed-uid-types:' + kind)
+        want = sorted((repr(p.uid) for p in mixed))
+        if sorted(map(repr, page)) != want or sorted(map(repr, every)) != want:
+            fail(desc, {'get_all': page, 'retrieve_all': every}, 'every stored policy exactly once: %r' % want, 'mixed-uid-types')
+            return
+    n = 1100
+    for kind in ['memory', 'redis-pickle', 'mongo'] + (['sqlite', 'redis-json'] if ctx.tier == 'thorough' else []):
+        st = stores.make(kind)
+        for i in range(n):
+            st.add(Policy('p%04d' % i, actions=['a'], subjects=['s'], resources=['r%d' % i], effect='allow'))
+        big = rng.randint(1001, 1600)
+        desc = {'backend': kind, 'stored': n, 'page': big,
+                'history': ['%d adds' % n, 'get_all(%d, 0)' % big, 'get_all(%d, %d)' % (big, big), 'retrieve_all(%d)' % big]}
+        try:
+            p1 = [p.uid for p in st.get_all(big, 0)]
+            p2 = [p.uid for p in st.get_all(big, big)]
+            every = [p.uid for p in st.retrieve_all(big)]
+        except Exception as e:
+            fail(desc, '%s: %s' % (type(e).__name__, str(e)[:160]), 'a page larger than a thousand raised', 'large-page')
+            return
+        out.evaluations += 1
+        out.count('large-page:' + kind)
+        if len(p1) != min(big, n) or len(set(p1 + p2)) != n or len(p1) + len(p2) != n or sorted(every) != sorted(set(every)) \
+                or len(every) != n:
+            fail(desc, {'first page': len(p1), 'second page': len(p2), 'distinct in both': len(set(p1 + p2)),
+                        'retrieve_all yields': len(every), 'distinct': len(set(every))},
+                 'a page of %d over %d policies holds %d, the next one the remaining %d; full retrieval yields each of the %d once'
+                 % (big, n, min(big, n), n - min(big, n), n), 'large-page')
+            return
 
 
 def _uid_reused(ctx, out, rng):
